@@ -59,6 +59,8 @@ func init() {
 			}
 		},
 	})
+
+	Registry["C02"].ColdStart = func(c *mon.Ctx) { c02RunConc(c, c.Seed*7919+uint64(c.Shard)+1) }
 }
 
 func c02Generate(c *mon.Ctx) {
@@ -270,6 +272,9 @@ func c02Generate(c *mon.Ctx) {
 			return &c02Case{Op: op, A: a, B: &b, Alias: "distinct", Rel: q.Tag, Trap: r.Intn(4) == 0, Observe: r.Intn(4) == 0}
 		}
 	})
+
+	// and again at the end of the shard, when the process has a history behind it
+	concBatches(c, c.N(4, 200), func(seed uint64) any { return &c02Case{Conc: seed + 50000} })
 }
 
 func c02Guard(c *mon.Ctx) *mon.Guard {
@@ -608,7 +613,13 @@ func c02RunConc(c *mon.Ctx, seed uint64) {
 		p, q := gen.Fresh(r), gen.Fresh(r)
 		a, b := mon.Elem(p.P, gen.DrawRepr(r, false)), mon.Elem(q.P, gen.DrawRepr(r, false))
 		wAdd, wSub, wDbl, wNeg := oracle.EncC(oracle.Add(p.P, q.P)), oracle.EncC(oracle.Sub(p.P, q.P)), oracle.EncC(oracle.Dbl(p.P)), oracle.EncC(oracle.Neg(p.P))
+		id := secp256k1.NewElement()
 		jobs = append(jobs, func() string {
+			// operations with an identity operand first (they take their own paths), then the judged ones
+			if !bytes.Equal(a.Copy().Subtract(id).Add(id).Encode(), oracle.EncC(p.P)) || !id.Copy().Add(a).Subtract(a).IsIdentity() {
+				return "P - O + O != P or O + P - P != O"
+			}
+
 			if !bytes.Equal(a.Copy().Add(b).Encode(), wAdd) || !bytes.Equal(a.Copy().Subtract(b).Encode(), wSub) ||
 				!bytes.Equal(a.Copy().Double().Encode(), wDbl) || !bytes.Equal(a.Copy().Negate().Encode(), wNeg) {
 				return "Add/Subtract/Double/Negate result differs from the group law"
